@@ -228,7 +228,7 @@ def h_frontdoor(E, which):
     return 'raised'
 
 
-INVALID = ['a++b', 'a**b', 'a(b)c', '()', 'f()', 'a+', '*a', 'a^^b', 'a||', '|a', 'a|b', 'a---b', 'a^--b', '2 . 3 . 4', 'a,b', 'a;b', 'a=b', 'a!',
+INVALID = ['1\t2', 'a\tb', '1.\t5', '1e\t3', '1\n2', 'a\rb', '1\xa0+\xa02', 'a\u2003b', 'a++b', 'a**b', 'a(b)c', '()', 'f()', 'a+', '*a', 'a^^b', 'a||', '|a', 'a|b', 'a---b', 'a^--b', '2 . 3 . 4', 'a,b', 'a;b', 'a=b', 'a!',
            '[', '[]', '[1,]', 'a^', '--a', 'a+*b', 'sin()', '(a', 'a)', 'a×b', '١', 'a−b', '1e+', '.', '1..2', 'a.b']
 
 
